@@ -69,6 +69,57 @@ def chains_for(source):
     return ["", "M", "F", "X", "O", "MF", "FM", "XF", "OF", "FX", "XFM"]
 
 
+TOK_SOURCES = {
+    "vec": ("toks(&input).into_par()", "val", True),
+    "iterx": ("IterIntoPar::par(TokSrc::new(input.clone(), true))", "val", True),
+    "iteru": ("IterIntoPar::par(TokSrc::new(input.clone(), false))", "val", False),
+}
+TOK_CHAINS = ["", "M", "F", "X", "O", "MF", "FM", "XF", "OF", "FX", "XFM", "MX", "MFM", "OFO"]
+
+
+def tok_shapes():
+    return [(s, c) for s in TOK_SOURCES for c in TOK_CHAINS]
+
+
+def gen_tok_shape(source, chain):
+    """the same programs over canary items (Tok): every creation and drop is recorded"""
+    expr, ty, known = TOK_SOURCES[source]
+    n = len(chain)
+    pid = 2 + n + 2
+    lines = ["fn tshape_%s(c: &Case, hdr: &std::cell::RefCell<String>) -> String {" % shape_name(source, chain),
+             "    let input: Vec<i64> = c.input.clone();"]
+    stage_exprs = []
+    for k, s in enumerate(chain):
+        sid = 2 + k
+        stage_exprs.append({"M": ".map(tmk_map(%d, c.cl[%d]))", "F": ".filter(mk_fil(%d, c.cl[%d]))",
+                            "X": ".flat_map(tmk_flat(%d, c.cl[%d]))", "O": ".filter_map(tmk_fm(%d, c.cl[%d]))"}[s] % (sid, k))
+    build = "%s.num_threads(c.nt1).chunk_size(c.cs1)%s" % (expr, "".join(stage_exprs))
+    lines.append("    macro_rules! build { () => {{ set_phase(0); let p = %s; let p = p.chunk_size(c.cs2).num_threads(c.nt2); *hdr.borrow_mut() = format!(\"params={} kind={}\", params_str(p.params()), kind_of(&p)); set_phase(1); p }} }" % build)
+    lines.append("    match &c.term {")
+    lines.append("        Term::Cv => { let p = build!(); let r = p.collect_vec(); r_list(r.iter().map(|x| x.v()).collect()) }")
+    lines.append("        Term::Cs => { let p = build!(); let r = p.collect(); r_list(r.iter().map(|x| x.v()).collect()) }")
+    lines.append("        Term::Cx => { let p = build!(); let r = p.collect_x(); r_bag(r.iter().map(|x| x.v()).collect()) }")
+    lines.append("        Term::Ci(t, old) => {")
+    lines.append("            let oldv: Vec<Tok> = toks(old);")
+    lines.append("            match t {")
+    lines.append("                'v' => { let p = build!(); let r = p.collect_into(oldv); r_list(r.iter().map(|x| x.v()).collect()) }")
+    lines.append("                's' => { let mut sv = SplitVec::new(); for x in oldv { sv.push(x); } let p = build!(); let r = p.collect_into(sv); r_list(r.iter().map(|x| x.v()).collect()) }")
+    lines.append("                _ => { let mut fv = FixedVec::new(oldv.len().max(1)); for x in oldv { fv.push(x); } let p = build!(); let r = p.collect_into(fv); r_list(r.iter().map(|x| x.v()).collect()) }")
+    lines.append("            }")
+    lines.append("        }")
+    lines.append("        Term::Cnt => { let p = build!(); format!(\"N:{}\", p.count()) }")
+    lines.append("        Term::Fe => { let p = build!(); p.for_each(mk_each(%d)); \"U\".to_string() }" % pid)
+    lines.append("        Term::Red(o) => { let p = build!(); r_opt(p.reduce(tmk_red(%d, *o)).map(|x| x.v())) }" % pid)
+    lines.append("        Term::Find(q) => { let p = build!(); r_opt(p.find(mk_fil(%d, *q)).map(|x| x.v())) }" % pid)
+    lines.append("        Term::First => { let p = build!(); r_opt(p.first().map(|x| x.v())) }")
+    lines.append("        Term::Any(q) => { let p = build!(); r_bool(p.any(mk_fil(%d, *q))) }" % pid)
+    lines.append("        Term::All(q) => { let p = build!(); r_bool(p.all(mk_fil(%d, *q))) }" % pid)
+    lines.append("        _ => \"unsupported\".to_string(),")
+    lines.append("    }")
+    lines.append("}")
+    return "\n".join(lines)
+
+
 def shape_name(source, chain):
     return "%s_%s" % (source, chain if chain else "E")
 
@@ -168,6 +219,17 @@ def main():
     for src, ch in shapes:
         parts.append(gen_shape(src, ch))
         parts.append("")
+    for src, ch in tok_shapes():
+        parts.append(gen_tok_shape(src, ch))
+        parts.append("")
+    parts.append("pub fn dispatch_tok(c: &Case, hdr: &std::cell::RefCell<String>) -> String {")
+    parts.append("    match c.shape.as_str() {")
+    for src, ch in tok_shapes():
+        parts.append("        \"%s\" => tshape_%s(c, hdr)," % (shape_name(src, ch), shape_name(src, ch)))
+    parts.append("        s => panic!(\"unknown tok shape {}\", s),")
+    parts.append("    }")
+    parts.append("}")
+    parts.append("")
     parts.append("pub fn dispatch(c: &Case, hdr: &std::cell::RefCell<String>) -> String {")
     parts.append("    match c.shape.as_str() {")
     for src, ch in shapes:
